@@ -5,7 +5,7 @@ from srcreplay import replay_src  # translated transport layer run in Coq on the
 PROP = {
     "pre": [regen_src],
     "extra": [replay_src({'cc'}, per_scn=120)],
-    "coq": ["C12", "C05t"],
+    "coq": ["C12", "C05t", "C12t"],
     "exhaustive": False,
     "rule": "Scripted connection handing out at most one prescribed chunk per Read: C02-style client calls (MBAP and RTU: valid reply, reply + next "
             "frame, foreign frames first / only, field corruptions, truncations, exception replies, random bytes, bad CRC followed by a flush "
